@@ -81,6 +81,93 @@ pub fn point(site: &str, a: u64, b: u64) {
 
 static EXITED: AtomicU64 = AtomicU64::new(0);
 
+// ------------------------------------------------------------------ aligned races
+/// Threads that reach the chosen hook point rendezvous there (spin barrier with a short timeout) and leave it at the same
+/// instant, so the few instructions that follow the point in the code under test run truly concurrently: a check-then-act
+/// or load-then-store window of nanoseconds is hit within a few hundred rounds instead of once in a million emits.
+static ALIGN_SITE: AtomicU64 = AtomicU64::new(0); // 0 none, 1 q.submit.begin, 2 q.submit.sent
+static ALIGN_N: AtomicU64 = AtomicU64::new(2);
+static ALIGN_COUNT: AtomicU64 = AtomicU64::new(0);
+static ALIGN_GEN: AtomicU64 = AtomicU64::new(0);
+fn set_align(site: u64, n: u64) {
+    ALIGN_N.store(n, Ordering::SeqCst);
+    ALIGN_COUNT.store(0, Ordering::SeqCst);
+    ALIGN_SITE.store(site, Ordering::SeqCst);
+}
+fn align_wait(site: &str) {
+    let want = ALIGN_SITE.load(Ordering::Relaxed);
+    if want == 0 || (want == 1) != (site == "q.submit.begin") || (want == 2) != (site == "q.submit.sent") {
+        return;
+    }
+    let g = ALIGN_GEN.load(Ordering::SeqCst);
+    let c = ALIGN_COUNT.fetch_add(1, Ordering::SeqCst) + 1;
+    if c >= ALIGN_N.load(Ordering::Relaxed) {
+        // the last to arrive fixes a common release instant a little in the future; everybody (this thread too) spins on
+        // the clock until then, so the skew between the threads is one clock read, not one cache-line transfer
+        ALIGN_COUNT.store(0, Ordering::SeqCst);
+        ALIGN_RELEASE.store(now_ns() + 20_000, Ordering::SeqCst);
+        ALIGN_GEN.fetch_add(1, Ordering::SeqCst);
+    } else {
+        let t0 = Instant::now();
+        let mut spins = 0u32;
+        while ALIGN_GEN.load(Ordering::SeqCst) == g {
+            std::hint::spin_loop();
+            spins += 1;
+            if spins % 256 == 0 {
+                // the partner may have been placed on this very CPU
+                std::thread::yield_now();
+            }
+            if spins % 64 == 0 && t0.elapsed() > Duration::from_millis(20) {
+                // nobody came: leave alone (the counter is only a heuristic, a lost decrement costs one misaligned round)
+                let _ = ALIGN_COUNT.fetch_update(Ordering::SeqCst, Ordering::SeqCst, |v| v.checked_sub(1));
+                return;
+            }
+        }
+    }
+    let rel = ALIGN_RELEASE.load(Ordering::SeqCst);
+    while now_ns() < rel {
+        std::hint::spin_loop();
+    }
+}
+static ALIGN_RELEASE: AtomicU64 = AtomicU64::new(0);
+extern "C" {
+    fn sched_getaffinity(pid: i32, cpusetsize: usize, mask: *mut u64) -> i32;
+    fn sched_setaffinity(pid: i32, cpusetsize: usize, mask: *const u64) -> i32;
+}
+/// Pin the calling thread to the `idx`-th CPU this process may use, so that racing threads really run in parallel
+/// (freshly spawned threads are often placed on one CPU and then take turns). Returns false when there is only one CPU.
+fn pin_to(idx: u64) -> bool {
+    static ALLOWED: OnceLock<Vec<usize>> = OnceLock::new();
+    let allowed = ALLOWED.get_or_init(|| {
+        let mut mask = [0u64; 16];
+        // SAFETY: plain syscall wrappers writing at most `cpusetsize` bytes into `mask`
+        let rc = unsafe { sched_getaffinity(0, std::mem::size_of_val(&mask), mask.as_mut_ptr()) };
+        let mut v = vec![];
+        if rc == 0 {
+            for (w, bits) in mask.iter().enumerate() {
+                for b in 0..64 {
+                    if bits >> b & 1 == 1 {
+                        v.push(w * 64 + b);
+                    }
+                }
+            }
+        }
+        v
+    });
+    if allowed.len() < 2 {
+        return false;
+    }
+    let cpu = allowed[(idx as usize) % allowed.len()];
+    let mut mask = [0u64; 16];
+    mask[cpu / 64] |= 1 << (cpu % 64);
+    // SAFETY: as above; pid 0 = the calling thread
+    unsafe { sched_setaffinity(0, std::mem::size_of_val(&mask), mask.as_ptr()) == 0 }
+}
+fn now_ns() -> u64 {
+    static BASE: OnceLock<Instant> = OnceLock::new();
+    BASE.get_or_init(Instant::now).elapsed().as_nanos() as u64
+}
+
 fn install_tracer(log_hooks: bool) {
     cadence::verif::install(Some(Arc::new(move |site: &'static str, _obj: usize, a: u64, b: u64| {
         if !site.starts_with("q.") {
@@ -93,6 +180,17 @@ fn install_tracer(log_hooks: bool) {
             tr().ev(json!({"ev":"hook","site":site,"tid":tid(),"a":a,"b":b}));
         }
         point(site, a, b);
+        align_wait(site);
+    })));
+}
+
+/// no log, no global lock: for the high-contention phases
+fn install_light() {
+    cadence::verif::install(Some(Arc::new(move |site: &'static str, _obj: usize, _a: u64, _b: u64| {
+        if site == "q.exit" {
+            EXITED.fetch_add(1, Ordering::SeqCst);
+        }
+        align_wait(site);
     })));
 }
 
@@ -156,6 +254,20 @@ impl MetricSink for GateSink {
                 panic!("wrapped sink panics on {}", m);
             }
         }
+    }
+    fn flush(&self) -> io::Result<()> {
+        self.other("flush");
+        Ok(())
+    }
+    fn stats(&self) -> cadence::SinkStats {
+        self.other("stats");
+        cadence::SinkStats::default()
+    }
+}
+impl GateSink {
+    /// flush / stats of the wrapped sink were entered on this thread
+    fn other(&self, what: &str) {
+        tr().ev(json!({"ev":"wother","what":what,"tid":tid()}));
     }
 }
 impl Drop for GateSink {
@@ -306,6 +418,18 @@ fn do_drop_unwinding(sink: QueuingMetricSink, h: u64) -> bool {
     }
 }
 
+/// a counter read that may panic in a broken tree: the panic is recorded as data, the caller sees `u64::MAX`
+fn stat(f: impl FnOnce() -> u64) -> u64 {
+    match catch_unwind(AssertUnwindSafe(f)) {
+        Ok(v) => v,
+        Err(_) => {
+            tr().ev(json!({"ev":"sbegin"}));
+            tr().ev(json!({"ev":"spanic","msg":last_panic()}));
+            u64::MAX
+        }
+    }
+}
+
 fn sample(sink: &QueuingMetricSink, ev: &str) {
     tr().ev(json!({"ev":"sbegin"}));
     let r = catch_unwind(AssertUnwindSafe(|| (sink.queued(), sink.submitted(), sink.drained(), sink.panics())));
@@ -448,11 +572,11 @@ pub fn stress(a: &Args) {
         }
         // bounded liveness: everything accepted is delivered while handles are alive
         let want = okcount.load(Ordering::SeqCst);
-        wait_until(Duration::from_secs(10), || sh.left.load(Ordering::SeqCst) >= want && live[0].0.drained() >= want);
+        wait_until(Duration::from_secs(10), || sh.left.load(Ordering::SeqCst) >= want && stat(|| live[0].0.drained()) >= want);
         // let the worker finish its bookkeeping after the last task (handler call, panic count):
         // wait on the facts themselves, never on a fixed sleep
         wait_until(Duration::from_secs(10), || {
-            live[0].0.panics() >= sh.n_panic.load(Ordering::SeqCst)
+            stat(|| live[0].0.panics()) >= sh.n_panic.load(Ordering::SeqCst)
                 && (!eh || sh.n_eh.load(Ordering::SeqCst) >= sh.n_err.load(Ordering::SeqCst))
         });
         sample(&live[0].0, "quiesce");
@@ -486,11 +610,67 @@ pub fn stress(a: &Args) {
         let exited = EXITED.load(Ordering::SeqCst) > 0;
         tr().ev(json!({"ev":"end","released":released,"exited":exited}));
     }
+    // ---- aligned capacity races (C10/C15/C08): the worker is held inside the wrapped sink, the queue has exactly one free
+    // slot, and 2-3 producers on clones leave the hook point at the top of submit at the same instant
+    let align_rounds = a.num("align", 120);
+    for r in 0..align_rounds {
+        let cap = 1 + (r % 3) as usize;
+        let nthr = 2 + (r % 2);
+        tr().ev(json!({"ev":"reset","cap":cap as u64,"eh":false,"run":2000 + r,"aligned":true}));
+        EXITED.store(0, Ordering::SeqCst);
+        let sh = new_shared(false);
+        let original = build_sink(&sh, Some(cap), false);
+        do_emit(&original, 1, "a.held");
+        wait_until(Duration::from_secs(5), || sh.entered.load(Ordering::SeqCst) >= 1);
+        for i in 1..cap {
+            do_emit(&original, 1, &format!("a.fill{}", i));
+        }
+        set_align(1, nthr);
+        let start = Arc::new(std::sync::Barrier::new(nthr as usize));
+        let mut js = vec![];
+        for p in 0..nthr {
+            let h = 2 + p;
+            tr().ev(json!({"ev":"clone","h":1,"h2":h}));
+            let s = original.clone();
+            let start = start.clone();
+            js.push(std::thread::spawn(move || {
+                pin_to(1 + p + 3 * (r % 4));
+                start.wait();
+                do_emit(&s, h, &format!("a.race{}", p));
+                (s, h)
+            }));
+        }
+        let mut live: Vec<(QueuingMetricSink, u64)> = vec![(original, 1)];
+        for j in js {
+            if let Ok(x) = j.join() {
+                live.push(x);
+            }
+        }
+        set_align(0, 2);
+        total_emits += cap as u64 + nthr;
+        sample(&live[0].0, "sample");
+        set_gate(&sh, true);
+        wait_until(Duration::from_secs(10), || sh.left.load(Ordering::SeqCst) >= stat(|| live[0].0.submitted()).min(64));
+        wait_until(Duration::from_secs(10), || stat(|| live[0].0.drained()) >= stat(|| live[0].0.submitted()));
+        sample(&live[0].0, "quiesce");
+        while let Some((s, h)) = live.pop() {
+            do_drop(s, h);
+        }
+        let released = wait_until(Duration::from_secs(10), || sh.dropped.load(Ordering::SeqCst));
+        tr().ev(json!({"ev":"end","released":released,"exited":EXITED.load(Ordering::SeqCst) > 0}));
+    }
     // ---- high-contention phases (C15/C08 at quiescence): 8 producers x 20 000 emits on clones of one sink,
-    // nothing logged per event: each producer counts its Ok results, the wrapped sink counts what it is handed
-    let bulk_runs = a.num("bulk", 2);
+    // nothing logged per event: each producer counts its Ok results, the wrapped sink counts what it is handed.
+    // The third phase aligns pairs of producers just before the submitted counter is incremented.
+    install_light();
+    let bulk_runs = a.num("bulk", 3);
     for b in 0..bulk_runs {
         let cap: Option<usize> = if b % 2 == 0 { None } else { Some(64) };
+        let aligned = b % 3 == 2;
+        let (nprod, per) = if aligned { (4u64, 4_000u64) } else { (8u64, 20_000u64) };
+        if aligned {
+            set_align(2, 2);
+        }
         tr().ev(json!({"ev":"reset","cap":cap_json(cap),"eh":false,"run":1000 + b,"bulk":true}));
         struct CountSink(Arc<AtomicU64>);
         impl MetricSink for CountSink {
@@ -505,12 +685,15 @@ pub fn stress(a: &Args) {
             None => QueuingMetricSink::from(CountSink(handed.clone())),
         };
         let mut js = vec![];
-        for p in 0..8u64 {
+        for p in 0..nprod {
             tr().ev(json!({"ev":"clone","h":1,"h2":p + 2}));
             let s = sink.clone();
             js.push(std::thread::spawn(move || {
+                if aligned {
+                    pin_to(1 + p);
+                }
                 let mut ok = 0u64;
-                for i in 0..20_000u64 {
+                for i in 0..per {
                     if s.emit(if i % 2 == 0 { "b:1|c" } else { "bulk.metric:2|g" }).is_ok() {
                         ok += 1;
                     }
@@ -526,8 +709,9 @@ pub fn stress(a: &Args) {
                 keep.push(s);
             }
         }
-        total_emits += 160_000;
-        wait_until(Duration::from_secs(10), || handed.load(Ordering::SeqCst) >= okn && sink.drained() >= okn);
+        set_align(0, 2);
+        total_emits += nprod * per;
+        wait_until(Duration::from_secs(10), || handed.load(Ordering::SeqCst) >= okn && stat(|| sink.drained()) >= okn);
         tr().ev(json!({"ev":"bulk","okn":okn,"deln":handed.load(Ordering::SeqCst)}));
         sample(&sink, "quiesce");
         drop(keep);
@@ -874,16 +1058,26 @@ pub fn replay(a: &Args) {
                 counters = handles.values().next().cloned();
             }
             if let Some(c) = &counters {
-                let got = (c.submitted(), c.drained(), c.panics());
+                let got = (stat(|| c.submitted()), stat(|| c.drained()), stat(|| c.panics()));
                 let exp = (st["s"].as_u64().unwrap(), st["d"].as_u64().unwrap(), st["p"].as_u64().unwrap());
                 if got != exp {
                     why = Some(format!("step {} {}: counters (submitted,drained,panics) model {:?} code {:?}", si, act, exp, got));
                     break;
                 }
-                let q = c.queued();
-                if q > got.0 {
-                    tr().ev(json!({"ev":"sbegin"}));
-                    tr().ev(json!({"ev":"sample","s":got.0,"d":got.1,"q":q.min(2_000_000_000),"p":got.2}));
+                // queued() may panic in a broken tree (panic is data: C15 "never wraps around", C20)
+                match catch_unwind(AssertUnwindSafe(|| c.queued())) {
+                    Ok(q) => {
+                        if q > got.0 {
+                            tr().ev(json!({"ev":"sbegin"}));
+                            tr().ev(json!({"ev":"sample","s":got.0,"d":got.1,"q":q.min(2_000_000_000),"p":got.2}));
+                        }
+                    }
+                    Err(_) => {
+                        tr().ev(json!({"ev":"sbegin"}));
+                        tr().ev(json!({"ev":"spanic","msg":last_panic()}));
+                        why = Some(format!("step {} {}: queued() panicked", si, act));
+                        break;
+                    }
                 }
             }
             if sh.dropped.load(Ordering::SeqCst) != st["rel"].as_bool().unwrap() && act != "ThreadEnd" && act != "DropRet" {
